@@ -989,6 +989,19 @@ func GetUnrotatedVTableCounts(vtable string, orgid utils.Option[int64]) (uint64,
 	return bytesCount, recCount, onDiskBytesCount, allColumnsMap
 }
 
+// GetIndexNamesForSegStores returns the indexes that own a segstore. Such an index may hold records that are only
+// buffered in memory so far, or that are being flushed right now (no unrotated segment info yet): it is in use.
+func GetIndexNamesForSegStores() map[string]struct{} {
+	allSegStoresLock.RLock()
+	defer allSegStoresLock.RUnlock()
+
+	retVal := make(map[string]struct{})
+	for _, segstore := range allSegStores {
+		retVal[segstore.VirtualTableName] = struct{}{}
+	}
+	return retVal
+}
+
 func GetUnrotatedVTableTimestamps(orgid int64) map[string]struct{ Earliest, Latest uint64 } {
 	result := make(map[string]struct{ Earliest, Latest uint64 })
 
